@@ -1923,6 +1923,8 @@ impl HandlerRunner {
                     let left: Vec<(SocketAddr, usize)> = self.nodes[ni].wire.expected_responses.read().iter().map(|(a, n)| (*a, *n)).collect();
                     if !left.is_empty() {
                         out.push(format!("!MON C13 exemption-left-at-quiescence node={} left={:?}", self.nodes[ni].idx, left));
+                        // (C18: whatever that address sends from now on passes the filter unseen - no ban, no quota)
+                        out.push(format!("!MON C18 address-exempt-from-the-filter-with-nothing-outstanding node={} left={:?}", self.nodes[ni].idx, left));
                     }
                 }
                 // C04: every submitted request has exactly one outcome by now
